@@ -1,6 +1,7 @@
 /- C04 — responses are paired with their requests, in order, under pipelining. -/
 import HtpModel.Lemmas.Conn
 import HtpModel.Lemmas.Flags
+import HtpModel.Lemmas.OutIndex
 
 namespace Htp.C04
 open Htp.Conn Htp.Gen
@@ -42,5 +43,19 @@ theorem C04_response_attaches (cfg : Cfg) (c : Conn) (t : Tx)
     { c with outNextTxIndex := c.outNextTxIndex + 1,
              out := { c.out with tx := some t.uid, contentLength := -1, bodyDataLeft := -1 } }
   exact h
+
+/-- **C04 (the response side never runs ahead of the list; PIPELINED is sticky - over whole histories)**: for every history of calls on a fresh
+    connection parser (request and response chunks in any interleaving, gaps, close, req_close, open, tx_freed, any configuration and callback
+    policy) and every prefix of it, `out_next_tx_index` - the list position of the transaction the next response will be attached to - is at
+    most the length of the transaction list: a response is attached to a transaction that has arrived, in arrival order, or to one the response
+    side creates itself at the end of the list. The index moves by one step per response started and is decreased only by htp_connp_tx_freed,
+    by exactly the number of slots it drops (`resIdle_index_step`, `txFreed_exact`); the request side never writes it. And the pipelining
+    indicator of the connection, once set, is never cleared (`Lemmas/OutIndex.lean`). The LOWER bound 0 <= index is not an invariant of the
+    functions taken one by one (`txFreed` on a made-up state with an empty slot in front of the index goes negative) and is left to the
+    correspondence. Which transaction a response is attached to, end to end, is decided by the tagged-exchange oracle on the implementation. -/
+theorem C04_history_out_index (cfg : Cfg) (calls pre : List Call) (hp : pre <+: calls) :
+    (runCalls cfg {} pre).outNextTxIndex ≤ ((runCalls cfg {} pre).txs.length : Int) ∧
+    (hasFlag (runCalls cfg {} pre).connFlags CONN_PIPELINED = true → hasFlag (runCalls cfg {} calls).connFlags CONN_PIPELINED = true) :=
+  ⟨history_out_index_inv_fresh_prefix cfg calls pre hp, history_pipelined_sticky_prefix cfg {} calls pre hp⟩
 
 end Htp.C04
